@@ -12,3 +12,5 @@ import RzmqModel.Props.C14
 #print axioms Rzmq.C14.refused_send_changes_nothing
 #print axioms Rzmq.C14.accepted_still_in_order
 #print axioms Rzmq.C14.receiver_buffer_bounded
+#print axioms Rzmq.C14.dealer_pending_queue_is_bounded
+#print axioms Rzmq.C14.dealer_refused_send_changes_nothing
